@@ -294,6 +294,47 @@ def loc(obj_or_fn, repo=None):
     return "?"
 
 
+def rule_liveness(prop):
+    """thorough tier, only when the property held: every mutation witness of this property (selftest/witnesses.py: one
+    construct of the CURRENT tree edited in a scratch copy) must still be reported by the quick check - a rule that
+    matches nothing any more passes vacuously forever.  Stale anchors and timeouts are listed, not failed."""
+    from concurrent.futures import ThreadPoolExecutor
+
+    sys.path.insert(0, VERIF)
+    from selftest.witnesses import W
+    from selftest.runner import run_one
+
+    repo = os.environ.get("VF_REPO", "/repo")
+    ws = [w for w in W if w["prop"] == prop and w["kind"] == "mutation"]
+    res = []
+
+    def one(w):
+        try:
+            return run_one(w, repo)
+        except Exception as e:  # timeouts etc.
+            return w, "error", f"{type(e).__name__}: {e}"
+
+    with ThreadPoolExecutor(max_workers=int(os.environ.get("VF_JOBS", "8"))) as ex:
+        for w, status, detail in ex.map(one, ws):
+            res.append({"witness": w["id"], "file": w["file"], "status": "reported" if status == "ok" else status, "detail": detail[:200]})
+    missed = [r for r in res if r["status"] == "MISSED"]
+    reported = sum(1 for r in res if r["status"] == "reported")
+    print(f"{prop}: rule liveness: {reported}/{len(res)} seeded edits of the current tree reported" + (f", not applicable (anchor changed / error): {[r['witness'] for r in res if r['status'] not in ('reported', 'MISSED')]}" if reported + len(missed) != len(res) else ""))
+    if not os.environ.get("VF_NO_EVIDENCE"):
+        ev_dir = os.environ.get("VF_EVIDENCE_DIR") or os.path.join(VERIF, "evidence")
+        path = os.path.join(ev_dir, f"{prop}.json")
+        try:
+            ev = json.load(open(path))
+            ev["coverage"]["rule_liveness"] = {"what": "mutation witnesses of this property applied one at a time to a scratch copy of the current tree; each must be reported by the quick check", "reported": reported, "total": len(res), "results": res}
+            json.dump(ev, open(path, "w"), indent=1, default=str)
+        except Exception as e:
+            print(f"INFO: could not add rule liveness to the evidence: {e}")
+    if missed:
+        print(f"ANALYSIS-ERROR property={prop}: rule liveness: witnesses no longer reported: {[r['witness'] for r in missed]}")
+        return 2
+    return 0
+
+
 def run_main(prop_module, argv):
     import argparse
 
@@ -305,7 +346,11 @@ def run_main(prop_module, argv):
     if args.replay:
         only = json.load(open(args.replay)).get("key")
     try:
-        return prop_module.run(tier=args.tier if args.tier in ("quick", "thorough") else "quick", only_key=only)
+        tier = args.tier if args.tier in ("quick", "thorough") else "quick"
+        rc = prop_module.run(tier=tier, only_key=only)
+        if rc == 0 and tier == "thorough" and not only and not os.environ.get("VF_NO_LIVENESS"):
+            rc = rule_liveness(prop_module.PROP)
+        return rc
     except AnalysisBroken as e:
         print(f"ANALYSIS-ERROR property={prop_module.PROP}: {e}")
         return 2
